@@ -149,8 +149,16 @@ class sptensor:
             shape = parse_shape(shape)
 
         if subs.size > 0:
-            assert subs.shape[1] == len(shape) and np.all(
-                (np.max(subs, axis=0) + 1) <= shape
+            if vals.shape[0] != subs.shape[0] or vals.size != subs.shape[0]:
+                raise ValueError(
+                    "Values must be a column with one entry per subscript but got "
+                    f"vals of shape {vals.shape} for {subs.shape[0]} subscripts"
+                )
+            assert (
+                subs.ndim == 2
+                and subs.shape[1] == len(shape)
+                and np.all(subs >= 0)
+                and np.all((np.max(subs, axis=0) + 1) <= shape)
             ), (
                 f"Shape provided was incorrect to fit all subscripts; "
                 f"max subscripts are "
@@ -159,6 +167,8 @@ class sptensor:
         else:
             # In case user provides an empty array in weird format
             subs = np.array([], ndmin=2, dtype=int)
+            if vals.size > 0:
+                raise ValueError("Values provided without subscripts")
 
         if vals.size == 0:
             # In case user provides an empty array in weird format
